@@ -163,6 +163,7 @@ const (
 	childKilled
 	childFailed
 	childTimeout
+	childOpError // the backend call itself returned an error (child exit status 7)
 )
 
 // runChild runs the one-call child under strace. inject=="" means baseline
@@ -201,6 +202,9 @@ func runChild(cf crashCfg, root string, traceSet, inject, logPath string) (child
 	if errors.As(err, &ee) {
 		if ws, ok := ee.Sys().(syscall.WaitStatus); ok && ws.Signaled() && ws.Signal() == syscall.SIGKILL {
 			return childKilled, ""
+		}
+		if ee.ExitCode() == 7 {
+			return childOpError, clip(stderr.String(), 400)
 		}
 	}
 	return childFailed, err.Error() + ": " + clip(stderr.String(), 400)
@@ -320,7 +324,7 @@ func (r *crashRunner) crashPoint(cf crashCfg, class string, n int, bi *baselineI
 	case childTimeout:
 		c.Inconclusive("strace child timed out: " + cf.String())
 		return false, false
-	case childFailed:
+	case childFailed, childOpError:
 		c.Inconclusive("strace child failed (" + cf.String() + " " + class + "#" + strconv.Itoa(n) + "): " + msg)
 		return false, false
 	}
@@ -370,6 +374,65 @@ func (r *crashRunner) crashPoint(cf crashCfg, class string, n int, bi *baselineI
 		r.resume(cf, root, final, want, det)
 	}
 	return true, true
+}
+
+// errnoFor is the error injected into the n-th call of a class (the call is not
+// executed, it returns the error): what a full disk, a quota, a dying device or an
+// exhausted descriptor table produce.
+var errnoFor = map[string]string{
+	"openat": "EMFILE", "write": "ENOSPC", "pwrite64": "ENOSPC", "rename": "ENOSPC", "renameat": "ENOSPC",
+	"renameat2": "ENOSPC", "fsync": "EIO", "fdatasync": "EIO", "close": "EIO", "ftruncate": "ENOSPC",
+	"mkdir": "ENOSPC", "mkdirat": "ENOSPC",
+}
+
+// one error point: fresh pre-state, the n-th call of class fails with an error instead
+// of the process dying. Whatever the call reports, the final name holds nothing, the
+// previous complete file or the complete new file; when it reports success, the
+// complete new file.
+func (r *crashRunner) errorPoint(cf crashCfg, class string, n int, bi *baselineInfo) {
+	c := r.c
+	top, root, final, old, err := setupCrash(r.base, cf)
+	if top != "" {
+		defer os.RemoveAll(top)
+	}
+	if err != nil {
+		panic(err)
+	}
+	want := detContent(cf.newTag(), cf.Size)
+	out, msg := runChild(cf, root, class, fmt.Sprintf("%s:error=%s:when=%d", class, errnoFor[class], n), "/dev/null")
+	if out != childCompleted && out != childOpError {
+		c.Inconclusive(fmt.Sprintf("strace child with an injected error did not run (%s %s#%d): %v %s", cf, class, n, out, msg))
+		return
+	}
+	st, flen := finalState(final, want, old)
+	slen := -1
+	if fi, err := os.Stat(final + ".part"); err == nil {
+		slen = int(fi.Size())
+	}
+	det := crashDetail{Kind: "io-error", Cfg: cf, Class: class, N: n, Final: st, FinalLen: flen, StagingLen: slen, Sequence: bi.Sequence,
+		Note: fmt.Sprintf("call #%d of %s returned %s; backend call reported: %s", n, class, errnoFor[class], map[bool]string{true: "success", false: "error: " + msg}[out == childCompleted])}
+	c.Eval()
+	c.Count("io_error_points", 1)
+	c.Count("io_error_points_"+cf.Op+"_"+class, 1)
+	c.Nontrivial(fmt.Sprintf("ioerr:%s:%s:%d", cf, class, n))
+	if out == childCompleted {
+		c.Count("io_error_absorbed_call_reported_success", 1)
+		if st != "complete" {
+			c.Violation(fmt.Sprintf("%s: reports success after a failed %s although the final name holds %s", cf.Op, class, st), det)
+		}
+		return
+	}
+	c.Count("io_error_reported_by_call", 1)
+	switch st {
+	case "absent":
+		c.Count("final_after_io_error_absent", 1)
+	case "complete":
+		c.Count("final_after_io_error_complete", 1)
+	case "old-complete":
+		c.Count("final_after_io_error_previous_version_complete", 1)
+	default:
+		c.Violation(fmt.Sprintf("%s: a failed %s leaves %s under the final name", cf.Op, class, st), det)
+	}
 }
 
 func (r *crashRunner) resume(cf crashCfg, root, final string, want []byte, det crashDetail) {
@@ -485,6 +548,22 @@ func (r *crashRunner) enumerate(cf crashCfg, pool chan struct{}, wg *sync.WaitGr
 					c.Inconclusive(fmt.Sprintf("%s: %s #%d not reached although the baseline made %d calls", cf, class, n, cnt))
 					return
 				}
+			}
+		}()
+	}
+	for class := range errnoFor {
+		cnt, from := bi.Counts[class], bi.RelevantFrom[class]
+		if cnt == 0 || from == 0 {
+			continue
+		}
+		class := class
+		inner.Add(1)
+		go func() {
+			defer inner.Done()
+			for n := from; n <= cnt; n++ {
+				pool <- struct{}{}
+				r.errorPoint(cf, class, n, bi)
+				<-pool
 			}
 		}()
 	}
